@@ -320,6 +320,84 @@ def traffic_work(arg):
     return tuple(map(str, arg)), viols
 
 
+def multi_work(arg):
+    """timeouts and keep-alives are per CONNECTION: several clients of one server with different activity.
+    scen "cut-one": clients A and B idle (or B chatty), A's link is cut both ways - the server drops A (and only A) after the
+    connection timeout, A reports DROPPED, B stays.  scen "half-open": A and B idle next to a peer C whose handshake never
+    completes, with connection timeout < temp-connection timeout - A and B stay.  scen "late": B joins 3 s after A."""
+    scen, frame, t_conn, chatty = arg
+    viols = {}
+    wit = {"part": "multi", "arg": list(arg)}
+
+    def flag(oracle, sig, msg):
+        viols.setdefault((oracle, sig), [0, wit, msg])[0] += 1
+    n = 3 if scen == "half-open" else 2
+    w = World(n_clients=n, dt=frame, autoconnect=False, start_time=1024.0, server_cfg={"setConnectionTimeout": t_conn})
+    try:
+        A, B = w.clients[0], w.clients[1]
+        w.client_connect(0)
+        if scen != "late":
+            w.client_connect(1)
+
+        def both_up(w_):
+            return all(ce.client is not None and ce.client.connected() and ce.addr in w_.ctxt.connections for ce in (A, B) if ce.client is not None)
+        if not w.run(int(3.0 / frame), both_up):
+            raise RuntimeError("HARNESS-ERROR: honest handshakes did not complete")
+        if scen == "late":
+            w.run(int(3.0 / frame))
+            w.client_connect(1)
+            if not w.run(int(3.0 / frame), both_up):
+                flag("idle", "a second client cannot connect while the first one idles", "client B status %s" % (B.conn.status if B.conn else None))
+                return tuple(map(str, arg)), viols
+        w.run(int(0.5 / frame))
+        k = [0]
+
+        def chat():
+            if chatty:
+                k[0] += 1
+                B.client.send(b"chat%06d" % k[0], retry=0)
+        if scen in ("cut-one", "late"):
+            victim, other = (A, B) if scen == "cut-one" else (B, A)
+            w.drop_rule = lambda w_, d: d.client_addr == victim.addr
+            t_cut = w.vt.now
+            gone_at = None
+            dropped_at = None
+            for _ in range(int((max(t_conn, 5.0) + 1.5) / frame)):
+                chat()
+                w.tick()
+                if gone_at is None and victim.addr not in w.ctxt.connections:
+                    gone_at = w.vt.now - t_cut
+                if dropped_at is None and victim.conn is not None and victim.conn.status == ConnectionStatus.DROPPED:
+                    dropped_at = w.vt.now - t_cut
+            slack = 0.1 + send_tick(frame) + 3 * frame
+            if gone_at is None or gone_at > t_conn + slack:
+                flag("timeout", "the server does not drop a client whose link is cut while ANOTHER client of the same server stays active",
+                     "%s: silent client %s after %.2f s (connection timeout %.2f s); the other client %s" % (
+                         scen, "still pooled" if gone_at is None else "dropped only after %.2f s" % gone_at, w.vt.now - t_cut, t_conn, "streams messages" if chatty else "idles"))
+            elif gone_at < t_conn - 0.1 - slack:
+                flag("timeout", "the server drops a silent client before the connection timeout", "%s: after %.2f s (timeout %.2f)" % (scen, gone_at, t_conn))
+            if dropped_at is None or dropped_at > 5.0 + slack:
+                flag("timeout", "a client whose link is cut does not report DROPPED after 5 s", "%s: %s" % (scen, dropped_at))
+            if other.addr not in w.ctxt.connections or not other.client.connected():
+                flag("idle", "cutting ONE client's link takes another client of the same server down", "%s: the other client: server side %s, client side %s" % (
+                    scen, "present" if other.addr in w.ctxt.connections else "gone", other.conn.status))
+        else:
+            C = w.clients[2]
+            w.drop_rule = lambda w_, d: d.client_addr == C.addr and d.src == "s"     # C never hears the answer: half-open, then silent
+            w.client_connect(2)
+            for _ in range(int(4.0 / frame)):
+                chat()
+                w.tick()
+            for name, ce in (("A", A), ("B", B)):
+                if ce.addr not in w.ctxt.connections or not ce.client.connected():
+                    flag("idle", "an idle client of a working link goes down next to an unrelated peer whose handshake never completes",
+                         "client %s: server side %s, client side %s (connection timeout %.2f s, temp timeout 2 s)" % (
+                             name, "present" if ce.addr in w.ctxt.connections else "gone", ce.conn.status, t_conn))
+    finally:
+        w.close()
+    return tuple(map(str, arg)), viols
+
+
 def connect_work(arg):
     timeout, with_cb, frame, set_when = arg
     viols = {}
@@ -649,6 +727,10 @@ def run(tier, seed):
                for fr, ka in (((1.0 / 64, 0.1), (1.0 / 50, 0.1), (1.0 / 64, 0.5)) if tier == "quick" else ((1.0 / 64, 0.1), (1.0 / 60, 0.1), (1.0 / 50, 0.1), (1.0 / 64, 0.5), (1.0 / 64, 0.04), (1.0 / 30, 1.0)))]
     for r in core.pmap("checks.c12", "traffic_work", tr_jobs):
         fold(r[1])
+    mu_jobs = [(scen, fr, tc, chatty) for scen in ("cut-one", "half-open", "late") for fr in ((1.0 / 64,) if tier == "quick" else (1.0 / 64, 1.0 / 50))
+               for tc in (1.0, 3.0) for chatty in (False, True)]
+    for r in core.pmap("checks.c12", "multi_work", mu_jobs):
+        fold(r[1])
     kc_jobs = [(ka0, ka1, fr, idle) for ka0, ka1 in ((3.0, 0.1), (1.0, 0.25), (0.1, 1.0), (0.5, 0.05)) for fr in (1.0 / 64, 1.0 / 50) for idle in (0.3, 1.3)]
     for r in core.pmap("checks.c12", "ka_change_work", kc_jobs):
         fold(r[1])
@@ -662,12 +744,12 @@ def run(tier, seed):
         fold(r[1])
     for (oracle, sig), (cnt, wit, msg) in sorted(acc.items()):
         rep.add_violation(core.Violation(oracle, sig, wit, "%s [%d cases]" % (msg[:400], cnt)))
-    n_exec = len(idle_jobs) + st.executions + len(cut_jobs) + len(con_jobs) + len(cs_jobs) + len(ss_jobs) + len(kc_jobs) + len(em_jobs) + len(kick_jobs) + len(tr_jobs)
+    n_exec = len(idle_jobs) + st.executions + len(cut_jobs) + len(con_jobs) + len(cs_jobs) + len(ss_jobs) + len(kc_jobs) + len(em_jobs) + len(kick_jobs) + len(tr_jobs) + len(mu_jobs)
     rep.coverage = {
         "states": idle_states + st.points, "transitions": idle_states + st.steps, "traces_validated_against_impl": n_exec,
         "idle_configurations": len(idle_jobs), "idle_closed_cycles": len(closed), "idle_cycle_rows": closed[:40], "idle_horizon_only": open_rows,
         "jitter_executions": st.executions, "cut_cases": len(cut_jobs), "cut_outcomes": len(cut_out), "connect_cases": len(con_jobs),
-        "client_setter_cases": len(cs_jobs), "server_setter_cases": len(ss_jobs), "keep_alive_change_cases": len(kc_jobs), "emission_under_missing_acks_cases": len(em_jobs), "application_traffic_cases": len(tr_jobs),
+        "client_setter_cases": len(cs_jobs), "server_setter_cases": len(ss_jobs), "keep_alive_change_cases": len(kc_jobs), "emission_under_missing_acks_cases": len(em_jobs), "application_traffic_cases": len(tr_jobs), "several_clients_cases": len(mu_jobs),
         "evaluations": n_exec, "distinct_nontrivial": len(closed) + len(cut_out) + len(st.outcomes) + len(cs_jobs),
         "rule": "idle: canonical state = ages + sequence numbers relative to the peer's window, per tick; a repeated state closes the graph (dyadic frames), otherwise a horizon is reported; "
                 "jitter: all 2^10 sequences of 1x/2x frames; cut: every tick phase of one keep-alive period x {both, c2s, s2c}; setters: every subset x order x before / during-the-handshake / after split",
@@ -690,6 +772,8 @@ def replay(witness):
     elif part == "emission":
         a = witness["arg"]
         v = emission_work((a[0], a[1], a[2], a[3], a[4], tuple(a[5]) if a[5] else None))[1]
+    elif part == "multi":
+        v = multi_work(tuple(witness["arg"]))[1]
     elif part == "traffic":
         v = traffic_work(tuple(witness["arg"]))[1]
     elif part == "ka-change":
